@@ -2,9 +2,9 @@
 cms_sign_and_envelop/deenvelop_and_verify) through ctypes, key objects of every provenance, certificates from the
 Python builder (vlib/ref/x509.py, signed in Python), field location inside a message with vlib/ref/der.py, and an
 independent model of the two cryptographic layers (SM2 from vlib/ref/sm2.py, SM4-CBC from OpenSSL via vlib/ref/blk.py)."""
-import ctypes, struct, hashlib
+import ctypes, struct
 from ctypes import c_void_p, c_size_t, c_int, byref
-from .ffi import lib, Buf, sizeof, const, shim, helper
+from .ffi import Buf, sizeof, const, shim, helper
 from .ref import der as D
 from .ref import sm2 as M
 from .ref import sigder as SD
@@ -134,8 +134,10 @@ def key_value(k):
 # certificates (Python builder, signed in Python by a test CA)
 
 def party_cert(cn, issuer_cn, serial, d, ku=("digitalSignature", "keyEncipherment")):
+    """issuer_cn "toolkit:<cn>" gives the six-attribute issuer name the toolkit's own examples use (C, ST, L, O, OU, CN)"""
     pub = M.pub_of(d)
-    t = RX.tbs(serial, RX.name(issuer_cn, extra=()), pki.T0 - pki.DAY, pki.T0 + 365 * pki.DAY, RX.name(cn, extra=()), pub, [RX.ext_key_usage(list(ku))])
+    issuer = RX.name(issuer_cn[8:]) if issuer_cn.startswith("toolkit:") else RX.name(issuer_cn, extra=())
+    t = RX.tbs(serial, issuer, pki.T0 - pki.DAY, pki.T0 + 365 * pki.DAY, RX.name(cn, extra=()), pub, [RX.ext_key_usage(list(ku))])
     return RX.cert(t, CA_D, CA_PUB)
 
 
